@@ -341,3 +341,14 @@ package keeper
 //@   trusted shifts the list by one with the builtin copy and puts y first; touches no state
 //@   pure
 //@   ensures len(r) == len(x) + 1 && r[0] == y
+
+// ================================================================ point queries (C07, C20): the stored value of exactly that key
+//@ func Keeper.WrkChain(c, req) (resp, err)
+//@   props C07 C20
+//@   pure
+//@   ensures @stored_registration err == nil ==> wcHas(wrk_store, req.WrkchainId) && wcGet(wrk_store, req.WrkchainId) == deref(resp.Wrkchain)
+//@ func Keeper.WrkChainBlock(c, req) (resp, err)
+//@   props C07 C20
+//@   pure
+//@   ensures @stored_record err == nil ==> blkHas(wrk_store, req.WrkchainId, req.Height) && blkGet(wrk_store, req.WrkchainId, req.Height) == deref(resp.Block)
+//@   ensures @of_that_chain err == nil ==> wcHas(wrk_store, req.WrkchainId) && resp.Owner == wcGet(wrk_store, req.WrkchainId).Owner && resp.WrkchainId == wcGet(wrk_store, req.WrkchainId).WrkchainId
